@@ -75,6 +75,29 @@ fn fam_match_simple(name: &'static str, thorough_only: bool, f: SimpleFam, level
         }),
     }
 }
+/// simple graphs on n nodes with at most `max_edges` edges (larger node counts, sparse)
+fn fam_match_sparse(name: &'static str, n: usize, max_edges: usize) -> Family {
+    let f = SimpleFam::new(n..=n, false, false);
+    let f2 = f.clone();
+    Family {
+        name,
+        thorough_only: true,
+        count: f.count(),
+        bounds: format!("matching: every labelled undirected loop-free graph on {} nodes with at most {} edges (Graph and StableGraph-with-vacancies encodings)", n, max_edges),
+        run: Box::new(move |idx, ctx| {
+            if (idx.count_ones() as usize) > max_edges {
+                ctx.skipped = true;
+                return;
+            }
+            let (n, e) = f.get(idx);
+            run_matching(ctx, n, e, 0)
+        }),
+        describe: Box::new(move |idx| {
+            let (n, e) = f2.get(idx);
+            json!({"matching": {"n": n, "edges": e}})
+        }),
+    }
+}
 fn fam_match_list(name: &'static str, thorough_only: bool, f: ListFam, level: u8) -> Family {
     let f2 = f.clone();
     Family {
@@ -214,6 +237,7 @@ fn families(a: &Args) -> Vec<Family> {
         fam_match_list("matching-lists5", false, ListFam { n: 5, m: 4, directed: false, loops: false }, 0),
         fam_match_simple("matching-ungraphs7-loopfree", true, SimpleFam::new(7..=7, false, false), 0),
         fam_match_simple("matching-ungraphs6-loops", true, SimpleFam::new(6..=6, false, true), 0),
+        fam_match_sparse("matching-ungraphs8-le10edges", 8, 10),
         fam_flow_list("flow-lists3", false, WListFam { n: 3, m: 3, directed: true, loops: true, k: if t { 4 } else { 2 } }, 1),
         fam_flow_list("flow-lists4", false, WListFam { n: 4, m: if t { 3 } else { 2 }, directed: true, loops: true, k: 2 }, 1),
         fam_flow_simple("flow-simple4-le5edges", false, WSimpleFam { n: 4, directed: true, loops: false, k: 2, max_edges: Some(if t { 6 } else { 4 }) }, 0),
